@@ -90,6 +90,11 @@ func storeCase(prop, engine string, weight int, run func(*kernel.Sim) *storeworl
 		}}
 }
 
+func liveCase(prop, engine string, weight int, o storeworld.LiveOpts) Case {
+	o.Prop = prop
+	return storeCase(prop, engine, weight, func(s *kernel.Sim) *storeworld.World { return storeworld.RunLive(s, o) })
+}
+
 // Cases lists every (property, engine) pair.
 var Cases = []Case{
 	seqCase("C02", "dbworld-seq", 1, dbworld.Profile{MaxOps: 40, MaxNames: 3,
@@ -112,6 +117,17 @@ var Cases = []Case{
 	concCase("C06", "dbworld-conc-free", 1, true, orc("audit-file")),
 	storeCase("C10", "storeworld-ctor", 1, storeworld.RunC10),
 	storeCase("C16", "storeworld-lookup", 1, storeworld.RunC16),
+	liveCase("C11", "storeworld-live", 1, storeworld.LiveOpts{Lookup: true, Expiry: true, SvcFaults: true, CacheFaults: true, Readers: true,
+		Oracles: orc("fresh", "coalesce", "converge", "read-value")}),
+	liveCase("C12", "storeworld-live", 1, storeworld.LiveOpts{Lookup: true, Expiry: true, SvcFaults: true, Readers: true, Close: true,
+		Oracles: orc("read-value", "read-order", "read-blocks")}),
+	storeCase("C12", "storeworld-race", 1, func(s *kernel.Sim) *storeworld.World { return storeworld.RunStoreRace(s, "C12") }),
+	liveCase("C19", "storeworld-live", 1, storeworld.LiveOpts{Lookup: true, Expiry: true, Restarts: true, Readers: true, Skew: true,
+		Oracles: orc("drop", "lastaccess")}),
+	liveCase("C15", "storeworld-live", 1, storeworld.LiveOpts{Lookup: true, Updaters: true, SvcFaults: true,
+		Oracles: orc("upd-value", "upd-rebuild", "upd-lost", "upd-error", "upd-close")}),
+	liveCase("C13", "storeworld-live", 1, storeworld.LiveOpts{Lookup: true, Restarts: true, CacheFaults: true, SvcFaults: true, Readers: true, Close: true,
+		Oracles: orc("doc-shape", "doc-complete", "restart-probe", "converge")}),
 }
 
 // CasesFor returns the cases of a property.
